@@ -88,7 +88,7 @@ func (lib *KnowledgeLibrary) LoadKnowledgeBaseFromReader(reader io.Reader, overw
 
 	catalog := &Catalog{}
 	err := catalog.ReadCatalogFromReader(reader)
-	if err != nil && err != io.EOF {
+	if err != nil {
 
 		return nil, err
 	}
